@@ -20,7 +20,7 @@ import (
 	"verif/harness/internal/out"
 )
 
-var scenarios = []string{"rr-shared-shuffle", "rr-fixed", "rr-dynamic", "random-fixed", "random-dynamic", "mw-rr", "mw-random"}
+var scenarios = []string{"rr-stable-failing", "rr-shared-shuffle", "rr-fixed", "rr-dynamic", "random-fixed", "random-dynamic", "mw-rr", "mw-random"}
 
 type dynStep struct {
 	Idx int `json:"report"` // index into the pool; -1: the subscriber was not asked
@@ -38,11 +38,17 @@ type shareObs struct {
 	Per   [][]res  `json:"per_caller"`
 }
 
+type stableObs struct {
+	Hosts []string `json:"hosts"`
+	Dyn   dynObs   `json:"dyn"`
+}
+
 type childOut struct {
-	Scenario string     `json:"scenario"`
-	Conc     []concObs  `json:"conc,omitempty"`
-	Dyn      []dynObs   `json:"dyn,omitempty"`
-	Share    []shareObs `json:"share,omitempty"`
+	Stable   []stableObs `json:"stable,omitempty"`
+	Scenario string      `json:"scenario"`
+	Conc     []concObs   `json:"conc,omitempty"`
+	Dyn      []dynObs    `json:"dyn,omitempty"`
+	Share    []shareObs  `json:"share,omitempty"`
 }
 
 // goid: the id of the calling goroutine (so that the shared subscriber can tell the caller
@@ -61,13 +67,14 @@ func goid() uint64 {
 // dynSub is shared by all callers: the list it reports changes every few calls
 type dynSub struct {
 	pool  []report
+	every uint64 // the report changes after this many lookups
 	n     uint64
 	slots sync.Map // goroutine id -> *int (owned by that goroutine)
 }
 
 func (d *dynSub) Hosts() ([]string, error) {
 	c := atomic.AddUint64(&d.n, 1)
-	idx := int((c / 3) % uint64(len(d.pool)))
+	idx := int((c / d.every) % uint64(len(d.pool)))
 	if p, ok := d.slots.Load(goid()); ok {
 		*(p.(*int)) = idx
 	}
@@ -88,7 +95,11 @@ func dynPool() []report {
 }
 
 func runDyn(via, k, calls int, mk func(s sd.Subscriber) func(k int) res) dynObs {
-	d := &dynSub{pool: dynPool()}
+	return runDynPool(via, k, calls, dynPool(), 3, mk)
+}
+
+func runDynPool(via, k, calls int, pool []report, every uint64, mk func(s sd.Subscriber) func(k int) res) dynObs {
+	d := &dynSub{pool: pool, every: every}
 	call := mk(d)
 	last := make([]int, k)
 	idxs := make([][]int, k)
@@ -118,6 +129,11 @@ func childMain(cfg out.Config, scenario string) {
 				ctor = "fixed"
 			}
 			o.Conc = append(o.Conc, concRR(hostList(c[0]), c[1], c[2], seed+uint64(i)*977, ctor))
+		}
+	case "rr-stable-failing":
+		for i, c := range [][3]int{{2, 8, 50}, {3, 16, 30}, {7, 8, 35}} {
+			hs := hostList(c[0])
+			o.Stable = append(o.Stable, stableObs{hs, concStable(hs, []string{"Sa", "Se", "SaeS"}[i], c[1], c[2])})
 		}
 	case "rr-shared-shuffle":
 		// callers use a round robin balancer over FixedSubscriber(s) while another goroutine
@@ -275,6 +291,9 @@ func (g *gen) racePass() {
 				g.addShared(*c.Shared, false, 0, nil, 0, map[string]interface{}{"scenario": sc, "consumer": "fixed, concurrent with NewRandomFixedSubscriber"},
 					fmt.Sprintf("SSC|%s|%d", sc, i))
 			}
+		}
+		for _, st := range co.Stable {
+			g.addConcStable(st.Hosts, st.Dyn, "race:"+sc)
 		}
 		for _, d := range co.Dyn {
 			for i, steps := range d.Per {
